@@ -4,8 +4,11 @@
 package main
 
 import (
+	"bytes"
+	"crypto"
 	"crypto/rand"
 	"crypto/rsa"
+	"crypto/sha256"
 	"crypto/x509"
 	"crypto/x509/pkix"
 	"encoding/asn1"
@@ -92,6 +95,7 @@ func main() {
 	extra3(out)
 	extra4(out)
 	extra5(out)
+	extra6(out)
 }
 
 // extra adds k10..k17 (leaves of the CA reusing k8's key, common names of 1..8 extra characters so that the
@@ -162,7 +166,6 @@ func write(out, name string, key *rsa.PrivateKey, der []byte) {
 	os.WriteFile(fmt.Sprintf("%s/%s.cert.pem", out, name), pem.EncodeToMemory(&pem.Block{Type: "CERTIFICATE", Bytes: der}), 0o644)
 }
 
-
 // extra2 adds k19 (self-signed) and k20 (leaf of the CA over k9's key) whose validity windows begin and end
 // inside the simulated time span, so that a verifier which compares the signingTime attribute with the
 // signer certificate's validity has edges to be strict about.
@@ -215,7 +218,6 @@ func extra2(out string) {
 	fmt.Println(19, 20, "short validity", len(der), len(der2))
 }
 
-
 // extra3 adds k21..k23: self-signed certificates whose distinguished names are encoded the way other tools encode
 // them, so that re-encoding the parsed name does not reproduce the bytes: UTF8String values with CN before O
 // (OpenSSL's default), an emailAddress (IA5String) and a domainComponent attribute, and a multi-valued RDN.
@@ -228,7 +230,9 @@ func extra3(out string) {
 		Value asn1.RawValue
 	}
 	type rdn []atv
-	str := func(tag int, s string) asn1.RawValue { return asn1.RawValue{Class: asn1.ClassUniversal, Tag: tag, Bytes: []byte(s)} }
+	str := func(tag int, s string) asn1.RawValue {
+		return asn1.RawValue{Class: asn1.ClassUniversal, Tag: tag, Bytes: []byte(s)}
+	}
 	name := func(rdns ...rdn) []byte {
 		var seq []byte
 		for _, r := range rdns {
@@ -280,7 +284,6 @@ func extra3(out string) {
 	}
 }
 
-
 // extra4 adds k24 and k25: self-signed certificates over RSA keys whose modulus length is not a multiple of 8 bits
 // (2049 and 2047 bits): byte-length arithmetic on signatures that rounds the wrong way shows only there.
 func extra4(out string) {
@@ -306,7 +309,6 @@ func extra4(out string) {
 	}
 }
 
-
 // extra5 adds k26 and k27: self-signed certificates that were themselves signed with SHA-384 and SHA-512 (the digest a
 // certificate was issued with says nothing about the digest of signatures made with its key).
 func extra5(out string) {
@@ -330,4 +332,53 @@ func extra5(out string) {
 		write(out, fmt.Sprint("k", 26+i), key, der)
 		fmt.Println(26+i, alg, len(der))
 	}
+}
+
+// extra6 adds k28: a self-signed certificate whose serial number is 0 (an INTEGER of one zero octet). crypto/x509 does not
+// issue such a certificate, so an ordinary one with serial 1 is patched in its TBSCertificate and signed again.
+func extra6(out string) {
+	if _, err := os.Stat(out + "/k28.key.pem"); err == nil {
+		return
+	}
+	key, _ := rsa.GenerateKey(rand.Reader, 2048)
+	t := &x509.Certificate{
+		SerialNumber: big.NewInt(1), Subject: pkix.Name{CommonName: "sim serial zero", Organization: []string{"verif sim"}},
+		NotBefore: time.Date(1999, 1, 1, 0, 0, 0, 0, time.UTC), NotAfter: time.Date(2099, 1, 1, 0, 0, 0, 0, time.UTC),
+		KeyUsage: x509.KeyUsageDigitalSignature, ExtKeyUsage: []x509.ExtKeyUsage{x509.ExtKeyUsageCodeSigning},
+	}
+	der, err := x509.CreateCertificate(rand.Reader, t, t, &key.PublicKey, key)
+	if err != nil {
+		panic(err)
+	}
+	var outer asn1.RawValue
+	if _, err := asn1.Unmarshal(der, &outer); err != nil {
+		panic(err)
+	}
+	var tbs, alg, sig asn1.RawValue
+	rest, _ := asn1.Unmarshal(outer.Bytes, &tbs)
+	rest, _ = asn1.Unmarshal(rest, &alg)
+	asn1.Unmarshal(rest, &sig)
+	tb := append([]byte(nil), tbs.FullBytes...)
+	i := bytes.Index(tb, []byte{0xa0, 0x03, 0x02, 0x01, 0x02, 0x02, 0x01, 0x01})
+	if i < 0 {
+		panic("serial not found")
+	}
+	tb[i+7] = 0x00
+	h := sha256.Sum256(tb)
+	sg, err := rsa.SignPKCS1v15(rand.Reader, key, crypto.SHA256, h[:])
+	if err != nil {
+		panic(err)
+	}
+	bs, _ := asn1.Marshal(asn1.BitString{Bytes: sg, BitLength: 8 * len(sg)})
+	body := append(append(append([]byte(nil), tb...), alg.FullBytes...), bs...)
+	final, _ := asn1.Marshal(asn1.RawValue{Class: asn1.ClassUniversal, Tag: asn1.TagSequence, IsCompound: true, Bytes: body})
+	c, err := x509.ParseCertificate(final)
+	if err != nil {
+		panic(err)
+	}
+	if err := c.CheckSignature(c.SignatureAlgorithm, c.RawTBSCertificate, c.Signature); err != nil {
+		panic(err)
+	}
+	write(out, "k28", key, final)
+	fmt.Println(28, "serial", c.SerialNumber, len(final))
 }
